@@ -679,10 +679,12 @@ def oracle_file(pid, sc, line):
             b = bytes.fromhex(e)
             if len(b) < 2 or b[:1] != b'"' or b[-1:] != b'"' or any(c == 0x22 or c < 0x21 or c > 0x7e for c in b[1:-1]):
                 return "ETag %r is not a syntactically valid strong entity-tag" % b
-        if sc["action"] == "same" and f[1] != f[2]:
+        # judged by what the file system really recorded (inode, length, mtime) at the two opens, not by what was asked of it
+        same_file = (f[4] == f[5]) if len(f) > 5 else (sc["action"] == "same")
+        if same_file and f[1] != f[2]:
             return "two instances on the unmodified file have different ETags %r / %r" % (bytes.fromhex(f[1]), bytes.fromhex(f[2]))
-        if sc["action"] != "same" and f[1] == f[2]:
-            return "ETag %r unchanged after `%s` (length, modification time or identity changed)" % (bytes.fromhex(f[1]), sc["action"])
+        if not same_file and f[1] == f[2]:
+            return "ETag %r unchanged after `%s` although (inode:length:mtime) went from %s to %s" % (bytes.fromhex(f[1]), sc["action"], f[4] if len(f) > 5 else "?", f[5] if len(f) > 5 else "?")
         return None
     size, a, b = sc["size"], sc["a"], sc["b"]
     if int(f[1]) != size:
@@ -805,7 +807,14 @@ def fam_stream_disconnect():
 
 
 FAMILIES[("chunker", "Reader::drop")] = ("stream_witness", fam_stream_disconnect)
-FAMILIES[("chunker", "Reader")] = ("stream_witness", lambda: fam_stream_inline() + fam_stream_long_writes() + fam_stream_ops(5, (2, 3)) + fam_stream_ops(4, (1,)))
+def _fam_chunker():
+    fam = fam_stream_inline() + fam_stream_long_writes() + fam_stream_ops(5, (2, 3)) + fam_stream_ops(4, (1,))
+    if os.environ.get("VERIF_TIER") == "thorough":
+        fam += [sc for sc in fam_stream_ops(6, (2,)) if len(sc["ops"]) == 10]      # every history of exactly 6 operations (10^6) at chunk size 2
+    return fam
+
+
+FAMILIES[("chunker", "Reader")] = ("stream_witness", _fam_chunker)
 FAMILIES[("chunker", "Writer")] = FAMILIES[("chunker", "Reader")]
 FAMILIES[("gzipbody", "")] = ("stream_witness", fam_gzip)
 FAMILIES[("build", "BodyWriter")] = ("stream_witness", fam_gzip)
